@@ -152,6 +152,22 @@ def run(ctx):
         add('is_normal_ordered', '(Bool.eqb %s (is_normal_ordered_fermi [(%s, C1)]) && Bool.eqb %s (is_normal_ordered_bose [(%s, C1)]) && Bool.eqb %s (dict_eqb lfactor lfeqb (no_fermi_term %s C1) [(%s, C1)]))' %
             (cbool(f.is_normal_ordered()), coq_fterm(w), cbool(bo.is_normal_ordered()), coq_fterm(bw), cbool(f.is_normal_ordered()), coq_fterm(w), coq_fterm(w)),
             {'call': 'is_normal_ordered', 'term': repr(w)}, key=w)
+    # longer words (fermion / boson), and QuadOperator.is_normal_ordered against its definition (on every mode all q before all p)
+    for _ in range(N(150, 1500)):
+        L = rng.choice([4, 4, 5, 6]); w = tuple((rng.randrange(3), rng.randint(0, 1)) for _ in range(L))
+        f = of.FermionOperator(w); bo = of.BosonOperator(w); bw = list(bo.terms)[0]
+        add('is_normal_ordered', '(Bool.eqb %s (is_normal_ordered_fermi [(%s, C1)]) && Bool.eqb %s (is_normal_ordered_bose [(%s, C1)]))' %
+            (cbool(f.is_normal_ordered()), coq_fterm(w), cbool(bo.is_normal_ordered()), coq_fterm(bw)), {'call': 'is_normal_ordered', 'term': repr(w)}, key=w)
+    qfacs = [(j, a) for j in range(2) for a in 'qp']
+    qwords = [w for L in range(0, 5) for w in itertools.product(qfacs, repeat=L)] + [tuple((rng.randrange(3), rng.choice('qp')) for _ in range(rng.choice([5, 6]))) for _ in range(N(100, 800))]
+    for w in qwords:
+        qo = of.QuadOperator(w, 1.0); t = list(qo.terms)[0]
+        want = all(not any(a == 'p' and b == 'q' for k1, (m1, a) in enumerate(t) for (m2, b) in t[k1 + 1:] if m1 == m2 == md) for md in set(m for m, _ in t))
+        got = qo.is_normal_ordered()
+        fixed = (of.normal_ordered(qo) == qo)
+        ctx.count('quad_is_normal_ordered', 1, nontrivial_key=w if len(w) >= 2 else None)
+        if got != want or got != fixed:
+            ctx.violation('C02 QuadOperator.is_normal_ordered returns %r on %r; all q before all p on every mode: %r; fixed point of normal_ordered: %r' % (got, t, want, fixed), {'call': 'QuadOperator.is_normal_ordered', 'term': repr(w)})
     for i in range(N(250, 2500)):
         nm = rng.choice([2, 3, 4, 6])
         terms = {}
